@@ -38,7 +38,7 @@ fn main() {
         }
         for el in &res {
             let s = format!("{:?}", el);
-            println!("  lib: {}", &s[..s.len().min(3000)]);
+            println!("  lib: {}", s.chars().take(3000).collect::<String>());
         }
     }
 }
